@@ -149,6 +149,7 @@ def j_opcmd(ctx):
                 obs.append(('die:effect', f'{verb} ends the session of {n} when issued by an operator', Implies(And(oper, pre.user_live(n)), sent)))
             obs.append(('die:guard', f'{verb} by a user who is not a (full) operator ends no session', Implies(Not(oper), not sent)))
             if not applies: obs.append(('die:other-server', f'{verb} naming another server ends no session', not sent))
+        if not applies: obs.append(('die:other-server', f'{verb} naming another server does not stop this server', not w.server_quit.sent))
         if applies:
             obs.append(('die:server', f'{verb} by an operator stops the server', Implies(oper, w.server_quit.sent)))
         obs.append(('die:server', f'{verb} by a user who is not a (full) operator does not stop the server', Implies(Not(oper), not w.server_quit.sent)))
